@@ -20,12 +20,18 @@
    histories have the same root iff they have the same canonical content.  The conformance harness checks exactly
    that on the real code: equal content <=> equal real root hash.
 
+   runtime/statedb keeps a second journal in its own stacked map, pushed and popped together with the State's
+   checkpoints (Snapshot / RevertToSnapshot): the logs (events, transfers), the refund counter and the suicide flags.
+   `side` carries its mechanism (stk: a stack of levels, read as statedb.GetLogs / GetRefund / HasSuicided read it) and
+   its meaning (sh: one plain copy per checkpoint); invariant SideIsPlainJournal.
+
    Values: every scalar is a small integer; 0 is "absent/zero/nil" everywhere (balance 0, no master, no code, storage
    value nil).  What the integers stand for (which bytes) is the harness's business.                               *)
 EXTENDS Integers, Sequences, FiniteSets, TLC
 
 CONSTANTS Addr, Key,        \* universes used by Next only (the operators below work on any address / key)
           BalV, EnV, MsV, CdV, StV,   \* value alphabets used by Next only; EnV is a set of <<energy, blockTime>>
+          LogV, RefV, SuiV,           \* statedb side journal: log ids, refund increments, addresses Suicide is tried on
           MaxOps, MaxDepth, MaxCommits
 
 VARIABLES base,       \* canonical content of the opened root: partial function addr -> Account
@@ -33,8 +39,9 @@ VARIABLES base,       \* canonical content of the opened root: partial function 
           shadow,     \* Seq of views (plain maps, one full copy per checkpoint); Len(shadow) = Len(stack)
           staged,     \* NoStage or StagedAs(content computed by the last Stage of this State)
           committed,  \* Seq of contents committed to the database (one entry per Commit, i.e. per version)
+          side,       \* statedb's own journal: [stk: Seq of [log, ref, sui], sh: Seq of [logs, refund, sui]]
           nops
-svars == <<base, stack, shadow, staged, committed, nops>>
+svars == <<base, stack, shadow, staged, committed, side, nops>>
 
 \* ------------------------------------------------------------------------------------------------ partial functions
 EmptyFn == <<>>
@@ -114,20 +121,41 @@ Canon(view) == LET live == {a \in DOMAIN view : ~IsEmpty(MetaOf(view[a]))}
                IN [a \in live |-> [view[a] EXCEPT !.st = NonZero(@)]]
 SetTop(s, v) == [s EXCEPT ![Len(s)] = v]
 
+\* the storage of one address as the State reads it (what BuildStorageTrie must commit to while the barrier is 0)
+StorageOf(b, stk, a) ==
+  LET ks == (DOMAIN AccOf(b, a).st) \cup {sk[3] : sk \in {x \in UNION {DOMAIN stk[i].st : i \in 1..Len(stk)} : x[1] = a}}
+  IN NonZero([k \in ks |-> ReadSt(b, stk, a, k)])
+
+\* ------------------------------------------------------------------------------------------------ statedb side journal
+\* level: log = entries <<kind, id>> put in this level (kind 1 event, 2 transfer), ref = refund value put in this
+\* level (-1: none), sui = addresses flagged in this level
+EmptySideLevel == [log |-> <<>>, ref |-> -1, sui |-> {}]
+EmptySideView == [logs |-> <<>>, refund |-> 0, sui |-> {}]
+SideInit == [stk |-> <<EmptySideLevel>>, sh |-> <<EmptySideView>>]
+RECURSIVE CatLogs(_, _)
+CatLogs(stk, n) == IF n = 0 THEN <<>> ELSE CatLogs(stk, n - 1) \o stk[n].log
+\* statedb.GetLogs: Journal() over all levels;  GetRefund / HasSuicided: stackedmap.Get = top-most level holding the key
+SideLogs(stk) == CatLogs(stk, Len(stk))
+SideRefund(stk) == LET S == {i \in 1..Len(stk) : stk[i].ref >= 0} IN IF S = {} THEN 0 ELSE stk[MaxOf(S)].ref
+SideSui(stk) == UNION {stk[i].sui : i \in 1..Len(stk)}
+SidePush(sd) == [stk |-> Append(sd.stk, EmptySideLevel), sh |-> Append(sd.sh, sd.sh[Len(sd.sh)])]
+SideCut(sd, r) == LET n == IF r < Len(sd.stk) THEN r ELSE Len(sd.stk) IN [stk |-> SubSeq(sd.stk, 1, n), sh |-> SubSeq(sd.sh, 1, n)]
+
 NoStage == [ok |-> FALSE, c |-> EmptyFn]
 StagedAs(c) == [ok |-> TRUE, c |-> c]
 
 \* ------------------------------------------------------------------------------------------------ actions
 Init == /\ base = EmptyFn /\ stack = <<EmptyLevel>> /\ shadow = <<EmptyFn>>
-        /\ staged = NoStage /\ committed = <<>> /\ nops = 0
+        /\ staged = NoStage /\ committed = <<>> /\ side = SideInit /\ nops = 0
 
 Tick == nops' = nops + 1
 Keep == UNCHANGED <<base, staged, committed>>
+KeepSide == UNCHANGED side
 
 MetaWrite(a, m) ==                       \* getAccountCopy + updateAccount
   /\ stack' = PutAcc(stack, a, m)
   /\ shadow' = SetTop(shadow, VSet(Top(shadow), a, LET o == VGet(Top(shadow), a) IN MkAcc(m, o.sw, o.st)))
-  /\ Keep /\ Tick
+  /\ Keep /\ KeepSide /\ Tick
 
 SetBalance(a, v) == MetaWrite(a, [ReadMeta(base, stack, a) EXCEPT !.bal = v])
 SetEnergy(a, v, t) == MetaWrite(a, [ReadMeta(base, stack, a) EXCEPT !.en = v, !.bt = t])
@@ -137,40 +165,63 @@ SetCode(a, c) == MetaWrite(a, [ReadMeta(base, stack, a) EXCEPT !.cd = c])
 SetRawStorage(a, k, v) ==
   /\ stack' = PutSt(stack, a, k, v)
   /\ shadow' = SetTop(shadow, VSet(Top(shadow), a, LET o == VGet(Top(shadow), a) IN [o EXCEPT !.st = Upd(@, k, v), !.sw = TRUE]))
-  /\ Keep /\ Tick
+  /\ Keep /\ KeepSide /\ Tick
 SetStorage(a, k, v) == SetRawStorage(a, k, v)     \* zero -> nil, otherwise rlp(trimmed): an encoding matter
+EncodeStorage(a, k, v) == SetRawStorage(a, k, v)  \* state.go:EncodeStorage = SetRawStorage(enc())
 
-Delete(a) ==
+DeleteCore(a) ==
   /\ stack' = PutBar(PutAcc(stack, a, EmptyMeta), a, Barrier(stack, a) + 1)
   /\ shadow' = SetTop(shadow, VSet(Top(shadow), a, AbsentAcc))
   /\ Keep /\ Tick
+Delete(a) == DeleteCore(a) /\ KeepSide
+
+\* ---- runtime/statedb
+\* Suicide: only an existing account is deleted and flagged; the result says which
+Suicide(a) ==
+  IF Exists(base, stack, a)
+  THEN /\ DeleteCore(a)
+       /\ side' = [stk |-> [side.stk EXCEPT ![Len(side.stk)].sui = @ \cup {a}],
+                    sh |-> [side.sh EXCEPT ![Len(side.sh)].sui = @ \cup {a}]]
+  ELSE UNCHANGED <<base, stack, shadow, staged, committed, side>> /\ Tick
+\* AddLog (kind 1) / AddTransfer (kind 2): appended to the journal of the top level
+AddLog(kind, id) ==
+  /\ side' = [stk |-> [side.stk EXCEPT ![Len(side.stk)].log = Append(@, <<kind, id>>)],
+               sh |-> [side.sh EXCEPT ![Len(side.sh)].logs = Append(@, <<kind, id>>)]]
+  /\ UNCHANGED <<base, stack, shadow, staged, committed>> /\ Tick
+\* AddRefund: read the current total through the stack, put the new total into the top level
+AddRefund(g) ==
+  /\ side' = [stk |-> [side.stk EXCEPT ![Len(side.stk)].ref = SideRefund(side.stk) + g],
+               sh |-> [side.sh EXCEPT ![Len(side.sh)].refund = @ + g]]
+  /\ UNCHANGED <<base, stack, shadow, staged, committed>> /\ Tick
 
 \* returns the revision = depth before the push
 NewCheckpoint ==
   /\ stack' = Append(stack, EmptyLevel)
   /\ shadow' = Append(shadow, Top(shadow))
+  /\ side' = SidePush(side)
   /\ Keep /\ Tick
 \* stackedmap.PopTo: pop while depth > r  (r >= current depth: nothing happens)
 RevertTo(r) ==
   /\ r >= 1
   /\ stack' = SubSeq(stack, 1, IF r < Len(stack) THEN r ELSE Len(stack))
   /\ shadow' = SubSeq(shadow, 1, IF r < Len(shadow) THEN r ELSE Len(shadow))
+  /\ side' = SideCut(side, r)
   /\ Keep /\ Tick
 
 \* Stage does not change the State; the result is the root (= content)
 Stage ==
   /\ staged' = StagedAs(StageOp(base, stack))
-  /\ UNCHANGED <<base, stack, shadow, committed>> /\ Tick
+  /\ UNCHANGED <<base, stack, shadow, committed, side>> /\ Tick
 Commit ==
   /\ staged.ok
   /\ committed' = Append(committed, staged.c)
-  /\ UNCHANGED <<base, stack, shadow, staged>> /\ Tick
-\* a new State from a committed root
+  /\ UNCHANGED <<base, stack, shadow, staged, side>> /\ Tick
+\* a new State (and a new statedb) from a committed root
 Reopen(i) ==
   /\ i \in 1..Len(committed)
   /\ base' = committed[i]
   /\ stack' = <<EmptyLevel>> /\ shadow' = <<committed[i]>>
-  /\ staged' = NoStage
+  /\ staged' = NoStage /\ side' = SideInit
   /\ UNCHANGED committed /\ Tick
 
 Next ==
@@ -182,6 +233,9 @@ Next ==
           \/ \E c \in CdV : SetCode(a, c)
           \/ \E k \in Key, v \in StV : SetStorage(a, k, v)
           \/ Delete(a)
+     \/ \E a \in SuiV : Suicide(a)
+     \/ \E id \in LogV : AddLog(1, id) \/ AddLog(2, id)
+     \/ \E g \in RefV : AddRefund(g)
      \/ (Len(stack) < MaxDepth /\ NewCheckpoint)
      \/ \E r \in 1..(Len(stack) - 1) : RevertTo(r)
      \/ Stage
@@ -204,6 +258,14 @@ ReadsArePlainMap ==
             acc == VGet(shadow[i], a)
         IN /\ ReadMeta(base, stk, a) = MetaOf(acc)
            /\ \A k \in UnivK(a) : ReadSt(base, stk, a, k) = Lookup(acc.st, k, 0)
+\* logs, refund and suicide flags read through statedb's stack = the plain copy, at every checkpoint depth
+SideIsPlainJournal ==
+  /\ Len(side.stk) = Len(stack) /\ Len(side.sh) = Len(stack)
+  /\ \A i \in 1..Len(side.stk) :
+        LET stk == SubSeq(side.stk, 1, i) IN
+        /\ SideLogs(stk) = side.sh[i].logs
+        /\ SideRefund(stk) = side.sh[i].refund
+        /\ SideSui(stk) = side.sh[i].sui
 \* the staged root is the canonical content of the plain map, whatever the history
 StageIsCanonical == StageOp(base, stack) = Canon(Top(shadow))
 \* canonical contents are canonical: no empty account, no zero slot, no storage without explicit root
